@@ -22,8 +22,8 @@ package act
 //@   loop 1 invariant [dropped] forall i int :: 0 <= i && i < len(pre(restarts)) - len(restarts) ==> now - pre(restarts)[i] > periodMillis
 //@   ensures [shape] len(result.0) >= 1 && len(result.0) <= len(restarts) + 1
 //@   ensures [now_last] result.0[len(result.0) - 1] == wallclock() && wallclock() >= old(wallclock())
-//@   ensures [kept] forall k int :: 0 <= k && k < len(result.0) - 1 ==> result.0[k] == old(restarts[len(restarts) + 1 - len(result.0) + k])
-//@   ensures [forgotten_only_if_old] forall i int :: 0 <= i && i < len(restarts) + 1 - len(result.0) ==> wallclock() - old(restarts[i]) > int64(period) * 1000
+//@   ensures [kept] forall k, j int :: 0 <= k && k < len(result.0) - 1 && j == len(restarts) + 1 - len(result.0) + k ==> result.0[k] == old(restarts[j])
+//@   ensures [forgotten_only_if_old] forall i, m int :: m == len(result.0) && 0 <= i && i < len(restarts) + 1 - m ==> wallclock() - old(restarts[i]) > int64(period) * 1000
 //@   ensures [exceeded_iff] result.1 <==> (len(restarts) + 1 > intensity && (intensity == 0 || wallclock() - old(restarts[len(restarts) - intensity]) <= int64(period) * 1000))
 //@   ensures [stays_sorted] sortedI64(result.0)
 //@   ensures [stays_past] forall i int :: 0 <= i && i < len(result.0) ==> 0 <= result.0[i] && result.0[i] <= wallclock()
